@@ -5,7 +5,7 @@ import json
 import vlib
 from vlib import judge
 
-UNIVERSE = [("/u/:a/:b", "GET"), ("/a/:x", "GET"), ("/b/:x/:y", "GET"), ("/s", "*"), ("/w/*", "GET"), ("/a/:x", "POST"), ("/:y", "GET")]
+UNIVERSE = [("/u/:a/:b", "GET"), ("/a/:x", "GET"), ("/b/:x/:y", "GET"), ("/s", "*"), ("/w/*", "GET"), ("/a/:x", "POST"), ("/:y", "GET"), ("/s", "GET"), ("/s/", "POST")]
 NAMES = ["a", "b", "x", "y", "/:any"]
 MC_PATHS = ["/u/1/2", "/a/7", "/b/3/4", "/s", "/zz", "/u/9", "/w/q/r", "/b/5"]
 
